@@ -37,6 +37,8 @@ def _cls(name):
 
 def check(run):
     P = run.program
+    from ..rules import consts as _consts
+    _consts.check(run, P)
     run.explanation = (
         "Path enumeration (with path conditions) of both per-edge loop bodies of _populate_face_latlon_bound; events are the calls _insert_pt_in_latlonbox(box, np.array([a, b])) and the direct stores of +-pi/2; "
         "expressions are classified by the names the function binds (node1_lat/lon from edge_lonlat[0], lat_max/lat_min from extreme_gca_latitude). Obligations per path: corner inserted; lat_max and lat_min each inserted, "
@@ -56,6 +58,8 @@ def check(run):
     sqtol.check(run, P, ("uxarray/grid/geometry.py", "uxarray/grid/arcs.py", "uxarray/grid/intersections.py", "uxarray/grid/utils.py", "uxarray/grid/coordinates.py"))
     _edge_extremes(run, P)
     _skip_tolerance(run, P)
+    from .c14 import _wrappers_forward
+    _wrappers_forward(run, P)
     _box_growth(run, P)
     _extreme(run, P)
     _closing_edge_swap(run, P)
